@@ -425,6 +425,27 @@ def run_harness(h, symtab, mangled, clibs, workdir):
     return res
 
 
+import threading
+_MEM_COND = threading.Condition()
+_MEM_AVAIL = [float(os.environ.get("VERIF_MEM_BUDGET_GB", "46"))]
+
+
+def _run_budgeted(h, *a):
+    """harnesses with a raised memory cap (> 16 GB) are admitted against a memory budget so that a suite run with many workers
+    cannot exhaust the machine; ordinary harnesses (observed < 3 GB) count as 3 GB"""
+    w = min(float(h.mem_gb) if h.mem_gb and h.mem_gb > 16 else 3.0, float(os.environ.get("VERIF_MEM_BUDGET_GB", "46")))
+    with _MEM_COND:
+        while _MEM_AVAIL[0] < w:
+            _MEM_COND.wait()
+        _MEM_AVAIL[0] -= w
+    try:
+        return run_harness(h, *a)
+    finally:
+        with _MEM_COND:
+            _MEM_AVAIL[0] += w
+            _MEM_COND.notify_all()
+
+
 def run_suite(suite, scratch, logdir, jobs=None):
     os.makedirs(logdir, exist_ok=True)
     byname, build_secs = kani_codegen(scratch, suite, logdir)
@@ -437,7 +458,7 @@ def run_suite(suite, scratch, logdir, jobs=None):
         futs = {}
         for h in suite.harnesses:
             symtab, mangled = byname[h.name]
-            futs[ex.submit(run_harness, h, symtab, mangled, suite.clibs, work)] = h
+            futs[ex.submit(_run_budgeted, h, symtab, mangled, suite.clibs, work)] = h
         for fu in cf.as_completed(futs):
             r = fu.result()
             h = futs[fu]
